@@ -208,6 +208,9 @@ fn lv<T: Leaves>(x: &T) -> Vec<Leaf> { let mut v = Vec::new(); x.leaves(&mut v);
 /// required to panic).  The executor checks that no feasible path gets here.
 #[inline(never)] pub fn vmust_not_reach(id: &'static str) { log(Ev::Assert { id, ok: false }) }
 
+/// The code that follows is expected to panic on (some of) the inputs: panicking paths are not obligations.
+#[inline(never)] pub fn vmay_panic() { LOG.with(|l| { let _ = l; }) }
+
 pub type HarnessFn = fn(&mut dyn Iterator<Item = Leaf>);
 
 /// Declares harness functions and (natively) a registry entry for each that builds the
